@@ -49,6 +49,31 @@ def run(programs):
     return out
 
 
+def on_guard(program):
+    """the guard of the T2(c) statement, as far as it can be read off the program: not (complete
+    crossing required and a level of a crossed factor excluded)"""
+    blk = {b["id"]: b for b in program["blocks"]}[program["main"]]
+    cmap = {c["id"]: c for c in program["constraints"]}
+    crossed_exclude = any(cmap[c]["kind"] == "Exclude" and cmap[c]["level"][0] in blk.get("crossing", [])
+                          for c in blk.get("constraints", []))
+    return not (blk.get("rcc", True) and crossed_exclude)
+
+
+def compare(programs, stats=None):
+    """-> list of (index, result_line) that break the tie: the created flat differs from the real one
+    (any program in the fragment), or code_sem and doc_sem are not sem_eqv on a program inside the guard.
+    stats (optional dict) counts the result lines ('outside' = not in the fragment)."""
+    res = run(programs)
+    bad = []
+    for i, (q, r) in enumerate(zip(programs, res)):
+        if stats is not None:
+            key = r if on_guard(q) or r in ("outside", "notaprogram") else r + " [off guard]"
+            stats[key] = stats.get(key, 0) + 1
+        if r.startswith("!") or "flat=diff" in r or "fails=diff" in r or ("sem=diff" in r and on_guard(q)):
+            bad.append((i, r))
+    return bad
+
+
 def plain_programs(rng, n):
     """single CrossBlocks of plain factors; weights only on crossed factors in half of them"""
     import gen_design
